@@ -94,7 +94,8 @@ def gen_lean():
     rng = re.findall(r"for ([ijk]) in range\(-amount, amount \+ 1\):", box)
     if rng != ["i", "j", "k"]:
         raise ValueError("construct not found: repeat_box_coord translation loops")
-    need(r"fractions_rem = fractions % 1\b", box, "move_inside_box remainder")
+    mb = need(r"def move_inside_box\(.*?(?=\ndef )", box, "move_inside_box", re.S)
+    need(r"= \w+ % 1\b", mb.group(0), "move_inside_box remainder `% 1`")
 
     def b(x):
         return "true" if x else "false"
